@@ -23,7 +23,8 @@ impl NativeBand for f32 {
         if cov.shape() != (m + p, m + p) {
             return;
         }
-        for prob in [0.5f32, 0.683, 0.95, 0.999] {
+        // (probabilities close to 1 make the quantile very sensitive to the level: a level formed in single precision shows)
+        for prob in [0.5f32, 0.683, 0.95, 0.999, 0.99999, 0.999999] {
             let r = st.confidence_band_radius(prob);
             out.fact("C14.native.band_len", r.len() == n, format!("{}", r.len()));
             if r.len() != n {
